@@ -565,20 +565,47 @@ func (s *Session) Data(r io.Reader) error {
 	return nil
 }
 
+// statusWrapper collects the per-recipient results reported during
+// BodyNonAtomic. A recipient can be reported several times (once per target it
+// is routed to) and the final result of a target is only known after Commit,
+// while go-smtp accepts exactly one status for each RCPT command and does not
+// allow to change it afterwards. So statuses are held back until Commit
+// returns and flush gives each accepted RCPT command one reply.
 type statusWrapper struct {
-	sc smtp.StatusCollector
-	s  *Session
+	s *Session
+
+	lock sync.Mutex
+	// First failure reported for the recipient, nil if only successes were
+	// reported.
+	errs map[string]error
 }
 
-func (sw statusWrapper) SetStatus(rcpt string, err error) {
-	sw.s.rawRcptsLock.Lock()
-	if raw := sw.s.rawRcpts[rcpt]; len(raw) != 0 {
-		sw.s.rawRcpts[rcpt] = raw[1:]
-		rcpt = raw[0]
+func (sw *statusWrapper) SetStatus(rcpt string, err error) {
+	sw.lock.Lock()
+	defer sw.lock.Unlock()
+	if prev := sw.errs[rcpt]; prev == nil {
+		sw.errs[rcpt] = err
 	}
-	sw.s.rawRcptsLock.Unlock()
+}
 
-	sw.sc.SetStatus(rcpt, sw.s.endp.wrapErr(sw.s.msgMeta.ID, !sw.s.opts.UTF8, "DATA", err))
+// flush reports the collected results to go-smtp. A recipient is told the
+// first failure reported for it, if there is none - the result of Commit.
+func (sw *statusWrapper) flush(sc smtp.StatusCollector, commitErr error) {
+	sw.lock.Lock()
+	defer sw.lock.Unlock()
+	sw.s.rawRcptsLock.Lock()
+	defer sw.s.rawRcptsLock.Unlock()
+
+	for rcpt, raws := range sw.s.rawRcpts {
+		err := sw.errs[rcpt]
+		if err == nil {
+			err = commitErr
+		}
+		for _, raw := range raws {
+			sc.SetStatus(raw, sw.s.endp.wrapErr(sw.s.msgMeta.ID, !sw.s.opts.UTF8, "DATA", err))
+		}
+	}
+	sw.s.rawRcpts = nil
 }
 
 func (s *Session) LMTPData(r io.Reader, sc smtp.StatusCollector) error {
@@ -631,12 +658,15 @@ func (s *Session) LMTPData(r io.Reader, sc smtp.StatusCollector) error {
 		return wrapErr(err)
 	}
 
-	s.delivery.(module.PartialDelivery).BodyNonAtomic(bodyCtx, statusWrapper{sc, s}, header, buf)
+	statuses := &statusWrapper{s: s, errs: make(map[string]error)}
+	s.delivery.(module.PartialDelivery).BodyNonAtomic(bodyCtx, statuses, header, buf)
 
 	// We can't really tell whether it is failed completely or succeeded
 	// so always commit. Should be harmless, anyway.
 	closed = true
-	if err := s.delivery.Commit(bodyCtx); err != nil {
+	err = s.delivery.Commit(bodyCtx)
+	statuses.flush(sc, err)
+	if err != nil {
 		return wrapErr(err)
 	}
 
